@@ -349,11 +349,21 @@ class Atomizer:
                 if b is not None and b.op == "var" and b.id in fv and ("t", i) not in done:
                     done.add(("t", i))
                     self.axioms.append(T.implies(T.eq(b, T.ZERO), T.and_(T.eq(c, T.ONE), T.eq(s, T.ZERO))))
+                elif b is not None and b.op in ("mul", "add") and ("t", i) not in done and \
+                        all(v.id in fv for v in T.free_vars([b])):
+                    # polynomial base whose variables all occur as plain reals (e.g. in a path condition `angle == 0`)
+                    done.add(("t", i))
+                    self.axioms.append(T.implies(T.eq(self.rw(b), T.ZERO), T.and_(T.eq(c, T.ONE), T.eq(s, T.ZERO))))
             for i, (ch, sh) in list(self.hyp_vars.items()):
                 b = self.base_terms.get(i)
                 if b is not None and b.op == "var" and b.id in fv and ("h", i) not in done:
                     done.add(("h", i))
                     self.axioms += [T.eq(T.eq(b, T.ZERO), T.eq(sh, T.ZERO)), T.eq(T.lt(T.ZERO, b), T.lt(T.ZERO, sh))]
+                elif b is not None and b.op in ("mul", "add") and ("h", i) not in done and \
+                        all(v.id in fv for v in T.free_vars([b])):
+                    done.add(("h", i))
+                    rb = self.rw(b)
+                    self.axioms += [T.eq(T.eq(rb, T.ZERO), T.eq(sh, T.ZERO)), T.eq(T.lt(T.ZERO, rb), T.lt(T.ZERO, sh))]
             if T.PI.id in fv and "pi" not in done:
                 done.add("pi")
                 self.axioms += [T.lt(T.const(Fraction(314159265, 100000000)), T.PI),
@@ -384,8 +394,17 @@ class Atomizer:
                 for other, ov in plain0.items():
                     if other != name and other not in owned and ov == old and isinstance(ov, float):
                         env[other] = value
+        def scaled_var(b):
+            # base k*x produced by term._tame: recover x = value / k
+            if b is not None and b.op == "add" and len(b.args) == 1 and b.args[0].op == "var" and b.val[0] == 0:
+                return b.args[0], b.val[1][0]
+            return None, None
         for i, (c, s) in self.trig_vars.items():
             b = self.base_terms.get(i)
+            xv, k = scaled_var(b)
+            if xv is not None and c.val in model and s.val in model:
+                assign(xv.val, self.trigL.get(i, 1) * math.atan2(model[s.val], model[c.val]) / float(k))
+                continue
             if b is not None and b.op == "var" and c.val in model and s.val in model:
                 L = self.trigL.get(i, 1)
                 ang = L * math.atan2(model[s.val], model[c.val])
@@ -395,6 +414,10 @@ class Atomizer:
                 assign(b.val, ang)
         for i, (ch, sh) in self.hyp_vars.items():
             b = self.base_terms.get(i)
+            xv, k = scaled_var(b)
+            if xv is not None and sh.val in model:
+                assign(xv.val, self.hypL.get(i, 1) * math.asinh(model[sh.val]) / float(k))
+                continue
             if b is not None and b.op == "var" and sh.val in model:
                 assign(b.val, self.hypL.get(i, 1) * math.asinh(model[sh.val]))
         return env
